@@ -1008,7 +1008,7 @@ func c08Check(desc string, sd Dict, body []byte) (res c08Result) {
 	}
 	var m0, m1 runtime.MemStats
 	runtime.ReadMemStats(&m0)
-	started := time.Now()
+	started := b2CPU()
 	func() {
 		defer func() {
 			if r := recover(); r != nil {
@@ -1035,10 +1035,10 @@ func c08Check(desc string, sd Dict, body []byte) (res c08Result) {
 		}
 		r.Close() // the error of Close is not classified by the property
 	}()
-	// time bound for decodes that produce little output (large images legitimately take longer, and
-	// the machine may be loaded)
-	if el := time.Since(started); el > 3*time.Second && res.produced < 4<<20 {
-		fail("slow", "%v", el)
+	// time bound (CPU time of this process, so that a loaded machine does not matter) for decodes
+	// that produce little output (large images legitimately take longer)
+	if el := b2CPU() - started; el > 3*time.Second && res.produced < 4<<20 {
+		fail("slow", "%v of CPU time", el)
 	}
 	runtime.ReadMemStats(&m1)
 	alloc := int64(m1.TotalAlloc-m0.TotalAlloc) - 2*res.produced
@@ -1052,7 +1052,7 @@ func c08Check(desc string, sd Dict, body []byte) (res c08Result) {
 
 // c08Goroutines: helper goroutines of closed readers must be gone (they finish asynchronously).
 func c08Goroutines(t *testing.T, before int) {
-	for i := 0; i < 40 && runtime.NumGoroutine() > before; i++ {
+	for i := 0; i < 400 && runtime.NumGoroutine() > before; i++ {
 		time.Sleep(50 * time.Millisecond)
 	}
 	if n := runtime.NumGoroutine(); n > before {
